@@ -48,7 +48,7 @@ CLAIMED["C18"] = ("proof", CLAIMED["C12"][1] + "; bounded runs of the real `reus
     "contracts on the real bodies of FileReport.generate (name = './' + path relative to the root, SPDXID = 'SPDXRef-' + MD5(name + checksum), checksum = SHA-1 of the file, licence identifiers = keys of the file's expressions, copyright present iff a notice exists, LicenseConcluded NOASSERTION / NONE cases) and format_creator; identifier-uniqueness lemma; the emitted document (sections vs covered files, DESCRIBES, SHA-1, per-file data vs lint --json, LicenseRef texts, line shape), the chunked SHA-1 loop and LicenseConcluded equivalence (all truth assignments) are bounded checks (labelled bounded)",
     "bill_of_materials' write loop and license_expression.simplify are bounded only; MD5/SHA-1 uninterpreted (collision-freedom assumed for uniqueness); no SPDX validator installed: 'parses as tag-value' is line shape", "4.18")
 CLAIMED["C14"] = ("proof", CLAIMED["C12"][1] + "; frame obligations (no mutation of heap objects or of collections held by frozen values reachable from the inputs); bounded child-process runs over the hidden parameters",
-    "determinism as a functional property: Project.reuse_info_of, the worker callable, FileReport.generate and ProjectReport.generate are proved against contracts stated over sets and maps with frames (the answer for a file cannot depend on files processed earlier or elsewhere); exhaustive scan for nondeterminism sources; the real lint --json / spdx outputs are compared across hash seeds, worker counts, listing orders, working directories and root spellings (bounded, labelled); one listed known finding (paths of non_compliant lists echo the root spelling)",
+    "determinism as a functional property: Project.reuse_info_of, NestedReuseTOML.reuse_info_of and the worker callable are proved against contracts with frames (FileReport.generate / ProjectReport.generate, stated over sets and maps, under C01) (the answer for a file cannot depend on files processed earlier or elsewhere); exhaustive scan for nondeterminism sources; the real lint --json / spdx outputs are compared across hash seeds, worker counts, listing orders, working directories and root spellings (bounded, labelled); one listed known finding (paths of non_compliant lists echo the root spelling)",
     "OS scheduling of worker processes is not a value a function contract quantifies over: the frame of the per-file functions is the deductive substitute; Pool.map assumed to return one result per input; os.walk / glob order only by the bounded runs", "4.14")
 T = CLAIMED["C12"][1]
 CLAIMED["C07"] = ("proof", T + "; template and comment style universally abstracted; bounded runs of the real command read back with the tool's reader",
